@@ -9,18 +9,11 @@ success of the call as a hypothesis.  Here it is a conclusion:
 Core Lean only.
 -/
 import MenpoModel.Props.C02Deep
+import MenpoModel.Core.C02Src
 
 namespace MenpoModel.C02
 
-/-! ### the in-place pass cannot fail on a laid-out tree (given fuel for its depth) -/
-
-mutual
-def Shape.depth : Shape → Nat
-  | .mk _ _ gs _ => gs.depth + 1
-def Groups.depth : Groups → Nat
-  | .nil => 0
-  | .cons _ g r => max g.depth r.depth
-end
+/-! ### the in-place pass cannot fail on a laid-out tree (given fuel for its depth; `Shape.depth`: Core/C02Src.lean) -/
 
 theorem inplaceGroups_total (f : Arr → Arr) (k : Nat) (base : Nat)
     (ih : ∀ (s : Shape) (h : Heap) (lo hi : Nat) (v : Val), base ≤ lo → RepInD base h s lo hi v → s.depth ≤ k →
@@ -74,7 +67,7 @@ theorem inplace_total (f : Arr → Arr) (base : Nat) : ∀ (k : Nat) (s : Shape)
       have ha1 : h1[a]? = some (.obj (.shape c) fs) := f1.keep_out ha (.inr q3)
       have hpx1 : h1[p]? = some (.arr x) := f1.keep hpx (fun _ _ hh => by cases hh)
       obtain ⟨h2, e2, _⟩ := selfInplace_spec f ha1 hp hpx1
-      exact ⟨h2, by simp only [inplace, ha, supInplace_shape, supSelf_shape, hlm]; exact e2⟩
+      exact ⟨h2, by simp only [inplace, ha, supInplace_shape, hlm, selfStage, ha1, supSelf_shape]; exact e2⟩
 
 
 /-! ### `copy` cannot fail except by AttributeError (given fuel for the depth of the value, classes of the table) -/
